@@ -370,6 +370,22 @@ func (o *oracle) check200(rq *request) {
 	if !found {
 		o.v("C14", "released-before-recorded", "r%d: cosignature for size %d released but no such checkpoint was committed to the lock store", rq.id, rq.n)
 	}
+	// ... and "recorded" means these very cosignature lines: what is released is
+	// what the lock store was given, not a fresh signature over a tree that
+	// happens to be on record
+	for _, l := range strings.SplitAfter(string(rq.resp), "\n") {
+		if l == "" {
+			continue
+		}
+		stored := false
+		for _, c := range o.wit[g.origin] {
+			stored = stored || bytes.Contains(c.raw, []byte(l))
+		}
+		if !stored {
+			o.v("C14", "released-not-recorded", "r%d: a released cosignature line for size %d is in no value ever committed to the lock store", rq.id, rq.n)
+			break
+		}
+	}
 	curN, _, _ := w.recorded(g)
 	if curN < rq.n {
 		o.v("C14", "released-before-recorded", "r%d: cosignature for size %d released while the lock store holds size %d", rq.id, rq.n, curN)
